@@ -96,11 +96,19 @@ pub struct C12World {
     ring_dropped_at: Option<usize>,
     /// Number of submissions queued (unsubmitted) right before the Ring was dropped.
     queued_at_ring_drop: Vec<Sqe>,
+    /// Property under which memory the kernel finds freed / changed is reported (C12, or C01 when the
+    /// world runs under C01: "no matter when ... the Ring itself is dropped").
+    memory_label: &'static str,
 }
 
 impl C12World {
     pub fn new(scenarios: std::rc::Rc<Vec<Scenario>>) -> C12World {
+        C12World::labelled(scenarios, "C12")
+    }
+
+    pub fn labelled(scenarios: std::rc::Rc<Vec<Scenario>>, memory_label: &'static str) -> C12World {
         C12World {
+            memory_label,
             scenarios,
             sc: None,
             ring: None,
@@ -303,7 +311,7 @@ impl C12World {
     fn absorb(&mut self) {
         for (class, msg) in simk::with(|k| std::mem::take(&mut k.violations)) {
             let class = format!("memory/{class}");
-            self.violations.push(Violation::new("C12", &class, &msg));
+            self.violations.push(Violation::new(self.memory_label, &class, &msg));
         }
     }
 
